@@ -458,4 +458,56 @@ def rule_arith(ctx):
                         "slicing rescales the reported figures by the definitional factors", lambda i: True, 3)
 
 
-RULES = [rule_arith, rule_prov, rule_mult, rule_leafcount, rule_multpair, rule_exec, rule_peak, rule_intsize, rule_maxcount, rule_totals_state, rule_intcost]
+def rule_validate(ctx):
+    """(seed C03_11) An in-place transformation that rejects its argument must reject it *before* it has touched
+    the tree: `remove_ind_('x')` on an already sliced index raises, and a caller that catches the error goes on
+    with a tree whose slice count was multiplied once more — every total reported afterwards is off by that
+    factor.  Clause: in the slicing transformations no `raise` is reachable (CFG) from a direct write of tree
+    state."""
+    r = RuleResult("C03-VALIDATE", "slicing transformations validate before they modify", 2)
+    tc = tree_class(ctx)
+    for name in ("remove_ind", "restore_ind"):
+        f = tc.lookup(name)
+        C.require(f is not None, f"{name} not found")
+        fl = ctx.flow(f)
+        cfg = fl.cfg
+        key = ctx.key(f, "C03-VALIDATE")
+        tree = "tree"
+        for n in f.node.body:
+            if isinstance(n, ast.Assign) and isinstance(n.value, ast.IfExp) and isinstance(n.targets[0], ast.Name):
+                tree = n.targets[0].id
+        writes = []
+        for n in walk_local(f.node):
+            tg = []
+            if isinstance(n, ast.Assign):
+                tg = n.targets
+            elif isinstance(n, ast.AugAssign):
+                tg = [n.target]
+            for t in tg:
+                b = t
+                while isinstance(b, ast.Subscript):
+                    b = b.value
+                if isinstance(b, ast.Attribute) and dotted(b.value) == tree:
+                    writes.append(n)
+        raises = [n for n in walk_local(f.node) if isinstance(n, ast.Raise)]
+        bad = None
+        for rz in raises:
+            rn = cfg.containing(rz, f.module.parents)
+            for w in writes:
+                wn = cfg.containing(w, f.module.parents)
+                if rn is not None and wn is not None and rn.id in cfg.reachable_from_succs(wn.id):
+                    bad = (rz, w)
+                    break
+            if bad:
+                break
+        if bad:
+            rz, w = bad
+            r.violation(key, C.loc(f, rz), f"`{C.unparse(rz, 50)}` can be reached after `{C.unparse(w, 50)}` has already modified the "
+                        f"tree: with inplace=True the rejected call leaves the tree changed (e.g. the slice count multiplied "
+                        f"again), and every total reported afterwards is wrong")
+        else:
+            r.ok(key, f.loc, f"{len(raises)} raise(s), none reachable from one of the {len(writes)} direct writes of tree state")
+    return r
+
+
+RULES = [rule_validate, rule_arith, rule_prov, rule_mult, rule_leafcount, rule_multpair, rule_exec, rule_peak, rule_intsize, rule_maxcount, rule_totals_state, rule_intcost]
